@@ -52,6 +52,10 @@ type gNode struct {
 	finalised uint64
 	address   string
 	chainID   *big.Int
+	// noFinality: the node has not seen a finalised block yet (e.g. right after a checkpoint sync):
+	// "finalized" is answered with null while "safe" and "latest" have headers
+	noFinality bool
+	tags       []string
 	calls     map[string]int
 	bad       []string
 }
@@ -107,9 +111,16 @@ func (n *gNode) handle(w http.ResponseWriter, r *http.Request) {
 		if len(req.Params) > 0 {
 			_ = json.Unmarshal(req.Params[0], &tag)
 		}
+		n.tags = append(n.tags, tag)
 		switch tag {
 		case "finalized":
-			result = gHeader(n.finalised)
+			if n.noFinality {
+				result = nil
+			} else {
+				result = gHeader(n.finalised)
+			}
+		case "safe":
+			result = gHeader(n.latest - min(n.latest, 3))
 		case "latest":
 			result = gHeader(n.latest)
 		default:
@@ -245,6 +256,35 @@ func gethCase(r *lib.Run, idx int) {
 	if err != nil {
 		r.Inconclusive("geth-layer:dial-failed")
 		r.Note("geth layer: " + err.Error())
+		return
+	}
+	if idx%4 == 3 {
+		// a node without finality: the provider must say so, and the client's start-up scan must
+		// record nothing - no commit is finalised as far as the node has told
+		node.noFinality = true
+		r.Count("geth_cases_with_a_node_that_reports_no_finalised_block", 1)
+		v, err := provider.FinalisedHeight(ctx)
+		r.Eval(1)
+		if err == nil {
+			r.Violation("geth-provider:finalised-height-invented", caseIdx, fmt.Sprintf("the node answers null for the finalized tag; FinalisedHeight returned %d without error (tags asked: %v)", v, node.tags), witness(nil))
+		}
+		provider.Close()
+		chain := blockchain.New(memory.New(), &net)
+		p2, err := l1.NewGethL1StateProvider(ctx, srv.URL, net.CoreContractAddress)
+		if err != nil {
+			r.Inconclusive("geth-layer:dial-failed")
+			return
+		}
+		client := l1.NewClient(p2, chain, log.NewNopZapLogger(), l1.WithResubscribeDelay(time.Millisecond), l1.WithCatchUpChunkSize(50))
+		cerr := client.CatchUpL1Head(ctx)
+		r.Eval(1)
+		if head, herr := chain.L1Head(); herr == nil {
+			r.Violation("geth-provider:head-recorded-although-the-node-reports-no-finalised-block", caseIdx,
+				fmt.Sprintf("start-up scan (returned %v) recorded Starknet block %d; the node answered null for the finalized tag (tags asked: %v)", cerr, head.BlockNumber, node.tags), witness(nil))
+		} else {
+			r.Count("geth_scans_recording_nothing_without_finality", 1)
+		}
+		r.Case("geth|no-finality")
 		return
 	}
 	// (a) heights and chain id
